@@ -367,10 +367,10 @@ Proof.
   pose proof nv_c10_inv_2 as I. pose proof (proj1 (proj2 I)) as ND.
   pose proof (R1 mh 6 (0, 999)) as A1.
   pose proof (R2 mh 6 2 (0, 999) ltac:(discriminate)) as A2.
-  pose proof (R3 mh 2 [9; 1; 6] ND) as A3.
-  pose proof (R3 mh 4 [9; 1; 6; 2] ND) as A3'.
+  pose proof (R3 mh 2 [9; 1; 6]) as A3.
+  pose proof (R3 mh 4 [9; 1; 6; 2]) as A3'.
   pose proof (R4 mh 2 1 [9; 1; 6] ltac:(discriminate)) as A4.
-  pose proof (R5 mh 6 (0, 999) I) as A5. pose proof (R5 mh 5 (0, 5) I) as A5'.
+  pose proof (R5 mh 6 (0, 999)) as A5. pose proof (R5 mh 5 (0, 5)) as A5'.
   pose proof (R6 mh 2 [9; 1; 6] I) as A6. pose proof (R6 mh 5 [9; 1; 6; 2] I) as A6'.
   exact (conj A1 (conj A2 (conj A3 (conj A3' (conj A4 (conj A5 (conj A5' (conj A6 A6')))))))).
 Qed.
@@ -419,7 +419,7 @@ Lemma nv_c10_range :
   (forall k, In k vs -> exists s, In s (states keqb assignV fuel mr (keys mr) body) /\ live keqb s k) /\
   (forall k, In k vs -> In k (keys mr)).
 Proof.
-  destruct (C10.c10_range keqb assignV mr body mr_inv body_is_ok) as (C1 & C2 & C3 & C4).
+  destruct (C10.c10_range keqb assignV mr body mr_inv) as (C1 & C2 & C3 & C4).
   split; [exact C1|]. split; [|split; [exact C3 | exact C4]].
   (* conjunct 2: key 4 is live in every state of the loop *)
   apply C2. intros s Hs. vm_compute in Hs.
@@ -472,30 +472,20 @@ Section Fuel.
   Qed.
 End Fuel.
 
-(* ---- superfluous premises (the theorems are true without them -- they are NOT needed, hence harmless, but the reader
-   should not think they carry weight): body_ok in c10_range; NoDup in conjunct 3 and Inv in conjunct 5 of c10_refine ---- *)
-Lemma remark_c10_range_without_body_ok : forall (m : @omap Z V) bdy, Inv keqb m ->
-  let fl := S (length (keys m)) in
-  let vs := fst (range_loop keqb assignV fl m (keys m) bdy) in
-  NoDup vs /\ (forall k, In k vs -> In k (keys m)) /\
-  (forall k, (forall s, In s (states keqb assignV fl m (keys m) bdy) -> live keqb s k) -> In k vs).
+(* ---- premises removed after the audit: body_ok in c10_range; NoDup in conjunct 3 and Inv in conjunct 5 of c10_refine.
+   The theorems of Props/C10.v are now stated without them (the evidence lemmas remark_c10_* that showed they carried no
+   weight became the proofs).  body_is_ok above is kept: it shows the witness body is also a body for which c10_inv carries
+   Inv through the loop.  A body that is NOT body_ok (a delete with a bogus compaction order) still satisfies c10_range: ---- *)
+Definition bad_body (k : Z) : list (@op Z V) := if k =? 2 then [ODelete 5 [99; 98]] else [].
+Lemma nv_c10_range_any_body :
+  ~ body_ok keqb assignV fuel mr (keys mr) bad_body /\
+  NoDup (fst (range_loop keqb assignV fuel mr (keys mr) bad_body)) /\
+  fst (range_loop keqb assignV fuel mr (keys mr) bad_body) = [2; 4; 6].
 Proof.
-  intros m bdy (Hk & Hd & Hl) fl vs. subst fl vs. split; [|split].
-  - apply range_loop_NoDup; exact Hk.
-  - intros k Hin. exact (range_loop_In _ _ _ _ _ _ _ Hin).
-  - intros k Hlive. apply range_loop_complete; [lia| |exact Hlive]. apply Hl, Hlive, states_head.
+  split; [|split; [exact (proj1 (C10.c10_range keqb assignV mr bad_body mr_inv))|vm_compute; reflexivity]].
+  vm_compute. intros H. decompose [and] H.
+  match goal with P : Permutation _ _ |- _ => apply Permutation_length in P; discriminate P end.
 Qed.
-
-Lemma remark_c10_refine_3_without_NoDup : forall (m : @omap Z V) k order,
-  get keqb zeroV (delete keqb m k order) k = (zeroV (vtype m), false).
-Proof.
-  intros m k order. unfold get, delete.
-  destruct (length (keys m) / 2 <=? length (remove keqb k (data m)))%nat; cbn [data vtype];
-    rewrite (lookup_remove_same keqb); reflexivity.
-Qed.
-Lemma remark_c10_refine_5_without_Inv : forall (m : @omap Z V) k v,
-  len (set keqb assignV m k v) = if mem keqb k (data m) then len m else S (len m).
-Proof. intros m k v. unfold len, set. cbn [data]. apply (length_upsert keqb). Qed.
 
 End M10.
 
